@@ -33,6 +33,8 @@ class World:
             c = c * np.array([4.0, 1.0])        # elongated area: the largest selected distance depends on the azimuth
         self.c = c
         self.vals = [np.array([rng.randint(-512, 512) / 32.0 + 0.05 * (c[i, 0] + k * c[i, 1]) for i in range(len(c))]) for k in range(4)]
+        # the fourth value set has two columns: the instance becomes a cross-variogram (and an ordinary one again afterwards)
+        self.vals[3] = np.column_stack((self.vals[3], self.vals[0] * 0.5 + 1.0))
         self.ms = {}
         from scipy.spatial.distance import pdist
         dm = float(min(pdist(c, m).max() for m in METRICS))
@@ -133,7 +135,7 @@ def same(a, b):
 
 def setter_alphabet(rng, directional):
     ops = [[0, 5], [0, 8], [1, [0]], [1, [1]], [1, [3, 1]], [1, [4, 1]], [2, [0]], [2, [1]], [2, [4, 0]], [2, [5, 0]], [3, 1],
-           [4, 1], [4, 2], [5, 1], [5, 3], [6, True], [6, False], [7, 1], [8, 1], [9, 1], [9, 2], [10, 1], [10, 2]]
+           [4, 1], [4, 2], [5, 1], [5, 3], [6, True], [6, False], [7, 1], [8, 1], [9, 1], [9, 2], [10, 1], [10, 2], [10, 3], [10, 0]]
     if directional:
         ops += [[11, 1], [11, 2], [12, 1], [12, 3], [13, 1], [14, 1]]
     return ops
@@ -242,10 +244,6 @@ def run(ctx, replay=None):
                     ops.append(rng.choice(alpha) if rng.random() < 0.6 else rng.choice(reads))
                 ops.append(rng.choice(reads))
                 histories.append((world, S0r, ops, 'random'))
-        if replay and replay.get('case'):
-            c = replay['case']
-            world = World(__import__('random').Random(c.get('world_seed', 0)), c['directional'], c.get('raw', False))
-            histories = [(world, c['S0'], c['ops'], 'replay')]
         for world, S0, ops, kind in histories:
             case = {'directional': world.directional, 'raw': world.raw, 'S0': S0, 'ops': ops, 'kind': kind}
             st, probs = run_history(ctx, model, world, S0, ops)
